@@ -51,9 +51,11 @@ fn case_script(c: &Case, i: usize) -> String {
     let t = &c.text;
     let cmd = match c.ctx.as_str() {
         "arg" => format!("probe {t}"),
+        "cmdname" => format!("{t} x1"),
         "for" => format!("for i in {t}; do probe \"$i\"; done"),
         "assign" => format!("z={t}"),
         "asgseq" => format!("z={t} y=a$x"),
+        "asgcs" => format!("y=$(put b; status 5) z={t}"),
         "export" => format!("export z={t}"),
         "noname" => t.to_string(),
         "redir" => format!(">/r/{t}"),
@@ -71,6 +73,7 @@ fn case_script(c: &Case, i: usize) -> String {
             )
         }
         "here" => format!("slurp <<E_O_F\n{t}\nE_O_F"),
+        "hereq" => format!("<<E_O_F\n{t}\nE_O_F"),
         other => panic!("bad context {other}"),
     };
     format!("({}{cmd}\nobs)\nmk {i}\n", setup(&c.st))
@@ -96,7 +99,7 @@ fn observe(c: &Case, events: &[Value], mark: &Value) -> Value {
     }
     let o = obs[0];
     let f: Vec<String> = match c.ctx.as_str() {
-        "arg" => {
+        "arg" | "cmdname" => {
             if probes.len() != 1 {
                 return bad("odd-probes");
             }
@@ -113,13 +116,13 @@ fn observe(c: &Case, events: &[Value], mark: &Value) -> Value {
             }
             f
         }
-        "assign" | "asgseq" | "export" => {
+        "assign" | "asgseq" | "asgcs" | "export" => {
             if !o["z"]["set"].as_bool().unwrap() {
                 return bad("odd-z");
             }
             vec![o["z"]["v"].as_str().unwrap().to_string()]
         }
-        "noname" => {
+        "noname" | "hereq" => {
             if !probes.is_empty() {
                 return bad("odd-probes");
             }
@@ -289,7 +292,7 @@ fn feature_tags(ctx: &str, w: &[Value], exp: &Value, tags: &mut BTreeMap<String,
             }
         }
     }
-    walk(w, ctx == "here", tags);
+    walk(w, ctx == "here" || ctx == "hereq", tags);
     *tags.entry(format!("ctx/{ctx}/{}", exp["k"].as_str().unwrap())).or_insert(0) += 1;
     if exp["k"] == "ok" {
         let n = exp["f"].as_array().unwrap().len();
@@ -331,7 +334,7 @@ pub fn replay(args: &[String]) -> i32 {
             let ctx = h["ctx"][o[0].as_u64().unwrap() as usize - 1].as_str().unwrap().to_string();
             let st = h["states"][o[1].as_u64().unwrap() as usize - 1].clone();
             let exp = o[2].clone();
-            let text = if ctx == "here" { v["th"].as_str().unwrap() } else { v["t"].as_str().unwrap() }.to_string();
+            let text = if ctx == "here" || ctx == "hereq" { v["th"].as_str().unwrap() } else { v["t"].as_str().unwrap() }.to_string();
             feature_tags(&ctx, w, &exp, &mut tags);
             cases.push((Case { ctx, text, st, exp: Some(strings(&exp["f"])) }, exp, v["w"].clone()));
         }
